@@ -44,6 +44,12 @@ func genRec(cfg Config, emit func(string, bool, []string)) {
 		minB := []int{50, 100, 100, 200}[r.IntN(4)]
 		maxB := minB * []int{1, 2, 8, 16}[r.IntN(4)]
 		roundSize := []int{1000, 1000, 1, 2, 3}[r.IntN(5)]
+		ancient := c%25 == 12
+		if ancient {
+			// backoff in hours: an object that has been failing for days
+			minB = []int{3600000, 5400000, 86400000}[r.IntN(3)]
+			maxB = minB * 2
+		}
 		mode := "exact"
 		batch := 0
 		if c%4 == 3 {
@@ -82,6 +88,22 @@ func genRec(cfg Config, emit func(string, bool, []string)) {
 				add("obs")
 				add("advance 809")
 			}
+		}
+		if ancient {
+			// one object keeps failing for 40 retry periods (and a second one joins half way)
+			add("put 1 %d", r.IntN(100))
+			add("fail 1 1")
+			add("fail 2 1")
+			for k := 0; k < 40; k++ {
+				add("advance %d", maxB+[]int{1, 7, 33, 61}[r.IntN(4)])
+				add("obs")
+				if k == 20 {
+					add("put 2 %d", r.IntN(100))
+				}
+			}
+			add("fail 1 0")
+			add("advance %d", maxB+1)
+			add("obs")
 		}
 		if c%5 == 2 {
 			// long-failing operations side by side: updates and a delete that keep failing over
